@@ -273,10 +273,13 @@ class PDFXRefStream(PDFBaseXRef):
         return "<PDFXRefStream: ranges=%r>" % (self.ranges)
 
     def load(self, parser: PDFParser) -> None:
-        (_, objid) = parser.nexttoken()  # ignored
-        (_, genno) = parser.nexttoken()  # ignored
-        (_, kwd) = parser.nexttoken()
-        (_, stream) = parser.nextobject()
+        try:
+            (_, objid) = parser.nexttoken()  # ignored
+            (_, genno) = parser.nexttoken()  # ignored
+            (_, kwd) = parser.nexttoken()
+            (_, stream) = parser.nextobject()
+        except PSEOF:
+            raise PDFNoValidXRef("Unexpected EOF")
         if not isinstance(stream, PDFStream) or stream.get("Type") is not LITERAL_XREF:
             raise PDFNoValidXRef("Invalid PDF stream spec.")
         size = stream["Size"]
@@ -1033,7 +1036,10 @@ class PDFDocument:
             xref.load(parser)
         else:
             if token is parser.KEYWORD_XREF:
-                parser.nextline()
+                try:
+                    parser.nextline()
+                except PSEOF:
+                    raise PDFNoValidXRef("Unexpected EOF")
             xref = PDFXRef()
             xref.load(parser)
         xrefs.append(xref)
